@@ -85,7 +85,7 @@ inductive Step : St → St → Prop where
       Step s { s with flag := .use, own := [(b,true)] }
   | procNever (s) (b) (ho : s.own = [(b,false)]) (h' : s.flag = .never) :
       Step s { s with own := [(b,true)] }
-  | procGiveUp (s) (b) (ho : s.own = [(b,false)]) (hf : s.flag = .freeing) :      -- 4 yields, still freeing: re-push
+  | procGiveUp (s) (b) (ho : s.own = [(b,false)]) :      -- the owner saw `freeing` during its 4 yields and re-pushes (the flag may have changed since)
       Step s { s with dl := b :: s.dl, own := [] }
   | procFree (s) (b) (ho : s.own = [(b,true)]) :
       Step s { s with lf := b :: s.lf, own := [] }
